@@ -579,6 +579,69 @@ def eval_object(ctx, spec, data, placements):
             raise
         except BaseException as ex:  # noqa: BLE001
             fail(f"{desc}: inverse() of a reset-free object raised {type(ex).__name__}: {str(ex)[:150]}")
+    # ---- inverse requested BEFORE the object's own definition was ever built; inverse twice ---------------------
+    if not resetful and is_gate and width_ok:
+        try:
+            obj3 = build(fresh(spec), fresh(data))
+            inv_a = obj3.inverse()
+            ca = definition_of(inv_a)                   # the inverse's definition first
+            inv_b = obj3.inverse()
+            cb = definition_of(inv_b)
+            c3 = definition_of(obj3)                    # the object's own definition last
+            if w <= OP_MAX:
+                u3, ua, ub = Operator(c3).data, Operator(ca).data, Operator(cb).data
+                e_same = float(np.abs(u3 - U).max())
+                e_inv = float(np.abs(ua @ u3 - np.eye(2 ** w)).max())
+                e_two = float(np.abs(ua - ub).max())
+            else:
+                st = rand_state(np.random.default_rng(11), w)
+                e_same = float(np.abs(sim_state(st, c3) - sim_state(st, circ)).max())
+                e_inv = float(np.abs(sim_state(sim_state(st, c3), ca) - st).max())
+                e_two = float(np.abs(sim_state(st, ca) - sim_state(st, cb)).max())
+            if not (e_same < TOL):
+                fail(f"{desc}: after inverse() was requested first, the object's own operator differs from a fresh build by {e_same:.3g}",
+                     err=e_same, order="inverse_requested_first")
+            if not (e_inv < TOL):
+                fail(f"{desc}: gate then inverse is not the identity when inverse() is requested before the definition is built "
+                     f"(max deviation {e_inv:.3g})", err=e_inv, order="inverse_requested_first")
+            if not (e_two < TOL):
+                fail(f"{desc}: two inverse() calls give different operators (max difference {e_two:.3g})", err=e_two,
+                     order="inverse_twice")
+        except (KeyboardInterrupt, SystemExit):
+            raise
+        except BaseException as ex:  # noqa: BLE001
+            fail(f"{desc}: inverse() before the definition raised {type(ex).__name__}: {str(ex)[:150]}", order="inverse_requested_first")
+    # ---- untouched, other memory layouts of the same array input (Fortran order, read-only, non-contiguous view) ----
+    if isinstance(data, np.ndarray) and data.ndim >= 1:
+        variants = []
+        if data.ndim == 2:
+            variants.append(("fortran", np.asfortranarray(data.astype(complex))))
+            variants.append(("transposed_view", np.ascontiguousarray(data.astype(complex).T).T))
+        ro = data.copy()
+        ro.setflags(write=False)
+        variants.append(("read_only", ro))
+        for tag, arr in variants:
+            before = arr.tobytes() if arr.flags.c_contiguous else np.ascontiguousarray(arr).tobytes()
+            try:
+                o4 = build(fresh(spec), arr)
+                c4 = definition_of(o4)
+                if not resetful and not isinstance(o4, QuantumCircuit):
+                    _ = definition_of(o4.inverse())
+                after = arr.tobytes() if arr.flags.c_contiguous else np.ascontiguousarray(arr).tobytes()
+                if after != before:
+                    fail(f"{desc}: building from a {tag} array modified the caller's input data ({spec['data_kind']})", layout=tag)
+                elif U is not None and w <= OP_MAX:
+                    e4 = float(np.abs(Operator(c4).data - U).max())
+                    if not (e4 < TOL):
+                        fail(f"{desc}: building from a {tag} array of the same values gives a different operator (max difference {e4:.3g})",
+                             err=e4, layout=tag)
+            except (KeyboardInterrupt, SystemExit):
+                raise
+            except ValueError as ex:
+                if "read-only" in str(ex):
+                    fail(f"{desc}: building from a read-only array tries to write into the caller's input data: {str(ex)[:100]}", layout=tag)
+            except BaseException:  # noqa: BLE001
+                pass                                # other layouts failing to build is not a C15 matter
     # ---- untouched (constructor, definition, inverse) ---------------------------------------------------
     if snapshot(d1) != snap_data:
         fail(f"{desc}: building the object modified the caller's input data ({spec['data_kind']})")
